@@ -92,7 +92,7 @@ func c14Classify(c c14Case) (bool, []string) {
 		if s.Out {
 			labels = append(labels, "-o"+s.Ext)
 		}
-		if s.In == "bad" || s.In == "garbage" || s.In == "empty" {
+		if s.In == "bad" || s.In == "garbage" || s.In == "empty" || s.In == "bigbad" {
 			labels = append(labels, "invalid-input")
 		}
 		for _, p := range c.Steps[:i] {
@@ -160,7 +160,7 @@ var c14Commands = func() []string {
 	return out
 }()
 
-var c14Inputs = []string{"small", "small2", "two", "part", "pbat", "smallfa", "bad", "garbage"}
+var c14Inputs = []string{"small", "small2", "two", "part", "pbat", "smallfa", "bad", "garbage", "big", "big2", "bigbad"}
 
 func c14Gen(t *rapid.T) c14Case {
 	n := rapid.IntRange(2, 4).Draw(t, "nsteps")
@@ -226,6 +226,7 @@ func TestC14(t *testing.T) {
 				{Steps: []c14Step{sa("small", false), sa("small", true)}},
 				{Steps: []c14Step{sa("small", false), {Args: []string{"cache", "purge"}, Aux: true}, sa("small", false), sa("small", false)}},
 				{Steps: []c14Step{sa("small", false), {Args: []string{"cache", "list"}, Aux: true}, sa("small", false)}},
+				{Steps: []c14Step{sa("big", false), sa("big2", false), sa("bigbad", false), sa("big", false)}},
 				{Steps: []c14Step{sa("small", false), se("small", ".fasta"), sa("small", false), se("small", ".gb")}},
 				{Steps: []c14Step{se("smallfa", ".gb"), sa("smallfa", false), se("smallfa", ".fasta"), se("smallfa", ".genbank")}},
 			} {
